@@ -11,164 +11,26 @@ explanation types × the three flags are tied to this single meaning by comparin
 -/
 import Pumpkin.Spec.Basic
 import Pumpkin.Check.Oracle
+import Pumpkin.Spec.CumSem
 import Pumpkin.Model.CumulativeSound
 
 namespace Pumpkin.C08
 
-def runs (k : Task) (a : List Int) (t : Int) : Prop := k.start.eval a ≤ t ∧ t < k.start.eval a + k.dur
 
-instance (k : Task) (a : List Int) (t : Int) : Decidable (runs k a t) := by unfold runs; infer_instance
-
-def contrib (k : Task) (a : List Int) (t : Int) : Int := if runs k a t then k.use else 0
-
-theorem foldl_add (l : List Int) (z : Int) : l.foldl (· + ·) z = z + l.foldl (· + ·) 0 := by
-  induction l generalizing z with
-  | nil => simp
-  | cons x xs ih => simp only [List.foldl_cons]; rw [ih (z + x), ih (0 + x)]; omega
-
-theorem loadAt_cons (k : Task) (ts : List Task) (a : List Int) (t : Int) :
-    loadAt (k :: ts) a t = contrib k a t + loadAt ts a t := by
-  simp only [loadAt, List.map_cons, List.foldl_cons, contrib, runs]
-  rw [foldl_add]; omega
-
-theorem loadAt_nil (a : List Int) (t : Int) : loadAt [] a t = 0 := rfl
-
-theorem loadAt_nonneg (ts : List Task) (a : List Int) (t : Int) (hu : ∀ k ∈ ts, 0 ≤ k.use) :
-    0 ≤ loadAt ts a t := by
-  induction ts with
-  | nil => simp [loadAt_nil]
-  | cons k ts ih =>
-    rw [loadAt_cons]
-    have := ih (fun k' hk' => hu k' (List.mem_cons_of_mem _ hk'))
-    have hk := hu k (by simp)
-    simp only [contrib]; split <;> omega
-
-/-- If every task running at `t` also runs at `s`, the load at `t` is at most the load at `s`. -/
-theorem loadAt_mono (ts : List Task) (a : List Int) (t s : Int) (hu : ∀ k ∈ ts, 0 ≤ k.use)
-    (h : ∀ k ∈ ts, runs k a t → runs k a s) : loadAt ts a t ≤ loadAt ts a s := by
-  induction ts with
-  | nil => simp [loadAt_nil]
-  | cons k ts ih =>
-    rw [loadAt_cons, loadAt_cons]
-    have h1 := ih (fun k' hk' => hu k' (List.mem_cons_of_mem _ hk'))
-      (fun k' hk' => h k' (List.mem_cons_of_mem _ hk'))
-    have hk := hu k (by simp)
-    have hk2 := h k (by simp)
-    simp only [contrib]
-    split
-    · rename_i hr; simp only [hk2 hr, if_true]; omega
-    · split <;> omega
-
-/-- No task runs at `t` ⇒ load 0. -/
-theorem loadAt_zero (ts : List Task) (a : List Int) (t : Int) (h : ∀ k ∈ ts, ¬ runs k a t) :
-    loadAt ts a t = 0 := by
-  induction ts with
-  | nil => rfl
-  | cons k ts ih =>
-    rw [loadAt_cons, ih (fun k' hk' => h k' (List.mem_cons_of_mem _ hk'))]
-    simp [contrib, h k (by simp)]
-
-/-- Among the tasks running at `t` there is one with the latest start. -/
-theorem exists_latest (ts : List Task) (a : List Int) (t : Int) (h : ∃ k ∈ ts, runs k a t) :
-    ∃ k ∈ ts, runs k a t ∧ ∀ k' ∈ ts, runs k' a t → k'.start.eval a ≤ k.start.eval a := by
-  induction ts with
-  | nil => obtain ⟨k, hk, _⟩ := h; cases hk
-  | cons x xs ih =>
-    by_cases hx : ∃ k ∈ xs, runs k a t
-    · obtain ⟨k, hk, hr, hmax⟩ := ih hx
-      by_cases hxr : runs x a t
-      · by_cases hle : x.start.eval a ≤ k.start.eval a
-        · refine ⟨k, List.mem_cons_of_mem _ hk, hr, ?_⟩
-          intro k' hk' hr'
-          cases hk' with
-          | head => exact hle
-          | tail _ h' => exact hmax k' h' hr'
-        · refine ⟨x, by simp, hxr, ?_⟩
-          intro k' hk' hr'
-          cases hk' with
-          | head => exact Int.le_refl _
-          | tail _ h' => have := hmax k' h' hr'; omega
-      · refine ⟨k, List.mem_cons_of_mem _ hk, hr, ?_⟩
-        intro k' hk' hr'
-        cases hk' with
-        | head => exact absurd hr' hxr
-        | tail _ h' => exact hmax k' h' hr'
-    · obtain ⟨k, hk, hr⟩ := h
-      cases hk with
-      | head =>
-        refine ⟨x, by simp, hr, ?_⟩
-        intro k' hk' hr'
-        cases hk' with
-        | head => exact Int.le_refl _
-        | tail _ h' => exact absurd ⟨k', h', hr'⟩ hx
-      | tail _ h' => exact absurd ⟨k, h', hr⟩ hx
 
 /-- **The executable check decides the documented meaning.** For non-negative resource usages:
 the oracle's test (load at every task's start time ≤ capacity, and 0 ≤ capacity) holds iff at
 every time point the total usage of the running tasks is at most the capacity. -/
 theorem cumulative_sat_iff (ts : List Task) (cap : Int) (a : List Int) (hu : ∀ k ∈ ts, 0 ≤ k.use) :
-    (Cons.cumulative ts cap).sat a = true ↔ ∀ t : Int, loadAt ts a t ≤ cap := by
-  simp only [Cons.sat, Bool.and_eq_true, List.all_eq_true, decide_eq_true_eq]
-  constructor
-  · rintro ⟨hstart, hcap⟩ t
-    by_cases hex : ∃ k ∈ ts, runs k a t
-    · obtain ⟨k, hk, hr, hmax⟩ := exists_latest ts a t hex
-      have hle : loadAt ts a t ≤ loadAt ts a (k.start.eval a) := by
-        apply loadAt_mono ts a t _ hu
-        intro k' hk' hr'
-        have := hmax k' hk' hr'
-        unfold runs at *
-        omega
-      exact Int.le_trans hle (hstart k hk)
-    · rw [loadAt_zero ts a t (fun k hk hr => hex ⟨k, hk, hr⟩)]; exact hcap
-  · intro h
-    refine ⟨fun k _ => h _, ?_⟩
-    -- a time point before every start: nothing runs there
-    have : ∃ t : Int, ∀ k ∈ ts, t < k.start.eval a := by
-      clear h hu
-      induction ts with
-      | nil => exact ⟨0, fun k hk => by cases hk⟩
-      | cons x xs ih =>
-        obtain ⟨t, ht⟩ := ih
-        refine ⟨min t (x.start.eval a - 1), ?_⟩
-        intro k hk
-        cases hk with
-        | head => omega
-        | tail _ h' => have := ht k h'; omega
-    obtain ⟨t, ht⟩ := this
-    have hz := loadAt_zero ts a t (fun k hk hr => by have := ht k hk; unfold runs at hr; omega)
-    have := h t
-    omega
+    (Cons.cumulative ts cap).sat a = true ↔ ∀ t : Int, loadAt ts a t ≤ cap :=
+  CumSem.cumulative_sat_iff ts cap a hu
 
 /-- Tasks of zero usage or non-positive duration never contribute: dropping them (as
 `create_tasks` does) preserves the load at every time point. -/
 theorem loadAt_drop_zero (ts : List Task) (a : List Int) (t : Int) :
     loadAt (ts.filter (fun k => decide (0 < k.use) && decide (0 < k.dur))) a t = loadAt ts a t ∨
-    ∃ k ∈ ts, k.use < 0 := by
-  induction ts with
-  | nil => left; rfl
-  | cons k ts ih =>
-    rcases ih with ih | ⟨k', hk', hneg⟩
-    · by_cases hneg : k.use < 0
-      · right; exact ⟨k, by simp, hneg⟩
-      · left
-        by_cases hkeep : (decide (0 < k.use) && decide (0 < k.dur)) = true
-        · simp only [List.filter_cons, hkeep, if_true]
-          rw [loadAt_cons, loadAt_cons, ih]
-        · simp only [List.filter_cons, hkeep, Bool.false_eq_true, if_false]
-          rw [loadAt_cons, ih]
-          simp only [Bool.and_eq_true, decide_eq_true_eq, not_and, Int.not_lt] at hkeep
-          have : contrib k a t = 0 := by
-            unfold contrib
-            by_cases hr : runs k a t
-            · rw [if_pos hr]
-              unfold runs at hr
-              by_cases hu : 0 < k.use
-              · have := hkeep hu; omega
-              · omega
-            · rw [if_neg hr]
-          omega
-    · right; exact ⟨k', List.mem_cons_of_mem _ hk', hneg⟩
+    ∃ k ∈ ts, k.use < 0 :=
+  CumSem.loadAt_drop_zero ts a t
 
 example : (Cons.cumulative [⟨⟨1, 0, 0⟩, 2, 2⟩, ⟨⟨1, 0, 1⟩, 3, 1⟩, ⟨⟨-1, 2, 0⟩, 0, 5⟩] 2).sat [-1, 0] = false ∧
     (Cons.cumulative [⟨⟨1, 0, 0⟩, 2, 2⟩, ⟨⟨1, 0, 1⟩, 3, 1⟩, ⟨⟨-1, 2, 0⟩, 0, 5⟩] 2).sat [-2, 0] = true := by decide
